@@ -1,9 +1,12 @@
 (* C14 — Bycycle objects reproduce the functional API and hold no stale state.
    Model: Model/Objects.v.  Tables are symbolic terms (TFit settings sig = compute_features with
-   those settings on that signal), so "equals" means "is computed from the same settings".  No axioms. *)
+   those settings on that signal), so "equals" means "is computed from the same settings".  No axioms.
+   `construct s` stores the settings s as given (shorthand expanded); `construct_args a` first fills the
+   documented defaults for arguments that were not given (construct_args a = construct (settings_of_args a)),
+   so every theorem about `construct s` applies to it.  The BycycleGroup theorems are at the end. *)
 From Coq Require Import List Bool Arith ZArith String.
 Import ListNotations.
-From ByC Require Import Base.Result Model.Objects Proofs.Objects.
+From ByC Require Import Base.Result Model.Objects Proofs.Objects Proofs.ObjectsExpand.
 Local Open Scope string_scope.
 
 (* whatever sequence of fits, edge recomputations, loads and edits preceded it, the stored
@@ -71,3 +74,120 @@ Theorem C14_legacy_stale_state_refuted :
                lookup (st_bk (o_set o')) "min_n_cycles" = None.
 Proof. exact legacy_stale_state_refuted. Qed.
 Print Assumptions C14_legacy_stale_state_refuted.
+
+
+(* ------------------------------------------------------------------------------------------------ *)
+(* constructor defaults (objs/fit.py:21-63) *)
+
+(* thresholds=None: the stored thresholds are the documented per-method defaults ... *)
+Theorem C14_thresholds_none_gives_documented_defaults : forall a, ca_thr a = None ->
+  st_thr (o_set (construct_args a)) = default_thr (match ca_amp a with Some b => b | None => false end).
+Proof. exact construct_default_thresholds. Qed.
+Print Assumptions C14_thresholds_none_gives_documented_defaults.
+
+(* ... whose values are (in thousandths): 0, .5, .5, .8, 3 cycles / 1, 3 cycles *)
+Theorem C14_default_threshold_values :
+  lookup (default_thr false) "amp_fraction_threshold" = Some 0%Z /\
+  lookup (default_thr false) "amp_consistency_threshold" = Some 500%Z /\
+  lookup (default_thr false) "period_consistency_threshold" = Some 500%Z /\
+  lookup (default_thr false) "monotonicity_threshold" = Some 800%Z /\
+  lookup (default_thr false) "min_n_cycles" = Some 3%Z /\
+  lookup (default_thr true) "burst_fraction_threshold" = Some 1000%Z /\
+  lookup (default_thr true) "min_n_cycles" = Some 3%Z.
+Proof. exact default_thr_values. Qed.
+Print Assumptions C14_default_threshold_values.
+
+(* a given dictionary (complete or partial) is stored with shorthand names expanded and NOTHING filled in *)
+Theorem C14_given_thresholds_are_stored_expanded : forall a d, ca_thr a = Some d ->
+  st_thr (o_set (construct_args a)) = expand_thresholds d.
+Proof. exact construct_given_thresholds. Qed.
+Print Assumptions C14_given_thresholds_are_stored_expanded.
+
+(* Bycycle() *)
+Theorem C14_no_arguments :
+  construct_args no_args =
+  {| o_set := {| st_center := true; st_amp := false; st_bk := []; st_thr := default_thr false; st_fek := 0%Z; st_rs := true |};
+     o_sig := None; o_df := None |}.
+Proof. exact construct_no_args. Qed.
+Print Assumptions C14_no_arguments.
+
+Theorem C14_other_constructor_defaults : forall a,
+  let s := o_set (construct_args a) in
+  st_center s = match ca_center a with Some c => c | None => true end /\
+  st_amp s = match ca_amp a with Some b => b | None => false end /\
+  st_bk s = match ca_bk a with Some d => d | None => [] end /\
+  st_fek s = match ca_fek a with Some f => f | None => 0%Z end /\
+  st_rs s = match ca_rs a with Some r => r | None => true end.
+Proof. exact construct_other_settings. Qed.
+Print Assumptions C14_other_constructor_defaults.
+
+(* shorthand expansion of ANY dictionary — complete or partial, long and shorthand names mixed — in
+   which no two keys name the same threshold: every given key is found under its long name with its
+   value, and nothing else is in the result (no shorthand key survives, no default is invented) *)
+Theorem C14_shorthand_expansion_keeps_every_given_value : forall d k v,
+  NoDup (expanded_keys d) -> In (k, v) d -> lookup (expand_thresholds d) (expand_key k) = Some v.
+Proof. exact expand_thresholds_lookup. Qed.
+Print Assumptions C14_shorthand_expansion_keeps_every_given_value.
+
+Theorem C14_shorthand_expansion_adds_nothing : forall d k',
+  NoDup (expanded_keys d) -> lookup (expand_thresholds d) k' <> None ->
+  exists k v, In (k, v) d /\ k' = expand_key k.
+Proof. exact expand_thresholds_only_given_keys. Qed.
+Print Assumptions C14_shorthand_expansion_adds_nothing.
+
+(* ------------------------------------------------------------------------------------------------ *)
+(* BycycleGroup: "models mirror df_features and sigs position by position"
+   mirror g := map o_df (g_models g) = map Some (g_dfs g) /\ map o_sig (g_models g) = map Some (g_sigs g) *)
+
+(* after ANY history of group operations (fits of 2-D / 3-D arrays along any axis, re-fits with
+   another shape, threshold / burst-option edits, edge recomputations) *)
+Theorem C14_group_models_mirror_after_any_history : forall a ops g,
+  grun (construct_group a) ops = Ok g -> mirror g.
+Proof. exact group_mirror. Qed.
+Print Assumptions C14_group_models_mirror_after_any_history.
+
+(* spelled out position by position *)
+Theorem C14_group_mirror_position_by_position : forall g, mirror g ->
+  List.length (g_models g) = List.length (g_dfs g) /\ List.length (g_models g) = List.length (g_sigs g) /\
+  forall i m, nth_error (g_models g) i = Some m ->
+    exists t sg, nth_error (g_dfs g) i = Some t /\ o_df m = Some t /\
+                 nth_error (g_sigs g) i = Some sg /\ o_sig m = Some sg.
+Proof. exact mirror_pointwise. Qed.
+Print Assumptions C14_group_mirror_position_by_position.
+
+(* no stale settings: the group's settings are the constructor's with the edits applied, and every
+   model holds exactly those *)
+Theorem C14_group_settings_after_any_history : forall a ops g,
+  grun (construct_group a) ops = Ok g ->
+  g_set g = gintended (g_set (construct_group a)) ops /\ models_current g.
+Proof. exact group_settings. Qed.
+Print Assumptions C14_group_settings_after_any_history.
+
+(* no stale tables / models: a fit after any history yields, for every position of the NEW array, the
+   table of the current settings and a model loaded with that table and that signal — nothing else *)
+Theorem C14_group_fit_after_any_history : forall a ops g arr sh g',
+  grun (construct_group a) ops = Ok g -> gstep g (GFit arr sh) = Ok g' ->
+  let s := gintended (g_set (construct_group a)) ops in
+  g_set g' = s /\
+  g_sigs g' = map (cell_id arr) (seq 0 (npos sh)) /\
+  g_dfs g' = map (table_at s arr sh) (seq 0 (npos sh)) /\
+  g_models g' = map (fun p => load_model s (cell_id arr p) (table_at s arr sh p)) (seq 0 (npos sh)).
+Proof. exact group_fit_after_history. Qed.
+Print Assumptions C14_group_fit_after_any_history.
+
+(* group recompute_edges(r) = the functional edge recomputation of every table with the group's
+   thresholds lowered by r, in df_features and in the models alike *)
+Theorem C14_group_recompute_edges : forall g r g', mirror g -> models_current g ->
+  gstep g (GRecompute r) = Ok g' ->
+  g_dfs g' = map (fun t => TEdges t (reduce_thresholds (st_thr (g_set g)) r)) (g_dfs g) /\
+  map o_df (g_models g') = map Some (g_dfs g') /\ g_sigs g' = g_sigs g /\ g_set g' = g_set g.
+Proof. exact group_recompute. Qed.
+Print Assumptions C14_group_recompute_edges.
+
+(* Legacy (before the repair of BycycleGroup.recompute_edges): the models were recomputed but the
+   group's df_features kept the old tables — refuted by the 2-step history [fit; recompute_edges(.1)] *)
+Theorem C14_group_legacy_stale_tables_refuted :
+  exists g g', grun_legacy (construct_group no_args) legacy_group_history = Ok g /\ ~ mirror g /\
+               grun (construct_group no_args) legacy_group_history = Ok g' /\ mirror g'.
+Proof. exact group_legacy_refuted. Qed.
+Print Assumptions C14_group_legacy_stale_tables_refuted.
